@@ -47,20 +47,31 @@ const (
 	subsetMax = 32 // property text: "all of them when there are at most 32"
 )
 
-type subRec struct {
-	name       string
-	prefix     string // "svc/"
-	key        string // "svc"
-	excl       bool
-	sub        *discov.Subscriber
-	joined     bool
+// lisRec: one listener of a subscriber.
+type lisRec struct {
 	notifies   int
-	lastNotify []string
+	lastNotify []string // the view read inside the notification that started last
 	lastStart  int
-	base       []string
-	tainted    bool // a (masked) mismatch was already seen: no further set comparisons
-	lateRace   bool // joined an existing watcher while events of the range were in flight
-	sawAll     bool // nothing had ever been registered under the prefix when it subscribed
+	base       []string // the view right after AddListener returned
+}
+
+type subRec struct {
+	name     string
+	prefix   string // the watched range: "svc/" (every key under it) or, for an exact-match subscriber, the full key
+	key      string // the key given to NewSubscriber: "svc", or the full key together with WithExactMatch
+	exact    bool
+	excl     bool
+	nLis     int // listeners added right after NewSubscriber returned (more may follow later)
+	sub      *discov.Subscriber
+	joined   bool
+	closing  bool // Close has been called: the view is no longer followed
+	lis      []*lisRec
+	tainted  bool // a (masked) mismatch was already seen: no further set comparisons
+	lateRace bool // joined an existing watcher while events of the range were in flight
+	orphan   bool // joined an existing watcher after a watch stream of the range had been opened while nobody was subscribed
+	staleEv  bool // one of its listeners was called by a watch goroutine whose stream had been cancelled (by the Close of an earlier subscriber)
+	js       *joinState
+	sawAll   bool // nothing had ever been registered under the prefix when it subscribed
 }
 
 type recCC struct {
@@ -76,6 +87,10 @@ type recCC struct {
 	res       resolver.Resolver
 	tainted   bool
 	lateRace  bool
+	orphan    bool
+	staleEv   bool
+	js        *joinState
+	closing   bool // the resolver has been closed: its state is no longer followed
 }
 
 // UpdateState models grpc's ccResolverWrapper: the call takes the channel's lock before the
@@ -85,6 +100,10 @@ type recCC struct {
 func (c *recCC) UpdateState(s resolver.State) error {
 	c.invoked++
 	inv := c.invoked
+	if !c.w.cleaning && c.w.st.cancelledStreamOwner(c.w.r.CurrentID()) {
+		c.staleEv = true
+		c.w.r.Probe("listener-called-by-cancelled-watch-goroutine")
+	}
 	c.inflight++
 	defer func() { c.inflight-- }()
 	if c.slow > 0 {
@@ -148,6 +167,21 @@ type world struct {
 	pendingClass, pendingMsg string
 	log                      []string
 	nOps                     int
+
+	keyNames, prefixes []string
+	exactKeys          [][]string     // per key name: the full keys an exact-match subscriber may watch
+	extras             []string       // keys next to the watched prefixes (bare name, range end, longer name)
+	holders            []*joinState   // every subscriber / resolver that has begun to subscribe
+	closedOn           map[string]int // range -> Close calls completed
+	joins, closes      []*simrt.Task
+	scheme             string
+	optExact           bool // WithExactMatch subscribers may be drawn
+	optListeners       bool // 0-3 listeners per subscriber, more may be added later
+	optLifecycle       bool // subscribers / the resolver may be closed in the middle of the run, new ones may subscribe
+	slowLis            int  // > 0: listeners yield up to that many times and may take virtual time
+	cbInflight         int  // listener calls that have not returned yet
+	opsDone            bool
+	cleaning           bool
 }
 
 func setOf(xs []string) map[string]bool {
@@ -190,14 +224,16 @@ func sameSet(a, b map[string]bool) bool {
 // reported instead: the recorded classes must not hide anything else.  (Static on purpose:
 // replays and the shrinker run without the driver's list of known findings.)
 var recorded = map[string]bool{
-	"stale-value-after-update-in-place":             true,
-	"exclusive-value-lost-after-update-in-place":    true,
-	"value-lost-after-reload-with-changed-value":    true,
-	"stale-value-after-reload-with-changed-value":   true,
-	"exclusive-snapshot-ignores-registration-order": true,
-	"concurrent-first-subscribers-race":             true,
-	"late-subscriber-races-with-watch-event":        true,
-	"reload-deadlock-holding-cluster-lock":          true,
+	"stale-value-after-update-in-place":                true,
+	"exclusive-value-lost-after-update-in-place":       true,
+	"value-lost-after-reload-with-changed-value":       true,
+	"stale-value-after-reload-with-changed-value":      true,
+	"exclusive-snapshot-ignores-registration-order":    true,
+	"concurrent-first-subscribers-race":                true,
+	"late-subscriber-races-with-watch-event":           true,
+	"reload-deadlock-holding-cluster-lock":             true,
+	"close-before-watch-setup-leaves-orphan-watcher":   true,
+	"event-of-cancelled-stream-applied-to-new-watcher": true,
 }
 
 // fail reports a violation unless its class is masked for development.
@@ -300,8 +336,35 @@ func within(got, required, allowed map[string]bool) bool {
 	return true
 }
 
+// joinState: where one subscriber (or the resolver's) stands between NewSubscriber and Close.
+type joinState struct {
+	rng         string
+	task        int  // the task that called NewSubscriber
+	loadsBefore int  // snapshots of the range that task had been served before the call
+	attached    bool // NewSubscriber has returned
+	closed      bool // Close has returned (or NewSubscriber failed)
+}
+
+// holdersOf: how many subscribers hold the watcher of the range right now, i.e. are attached,
+// or are the first subscriber of the range and have loaded it (the watch stream of a new
+// watcher is opened by its own goroutine some time after that load).  A watch stream that
+// go-zero opens while nobody holds the range belongs to a watcher that was dropped already.
+func (w *world) holdersOf(rng string) int {
+	n := 0
+	for _, j := range w.holders {
+		if j.rng == rng && !j.closed && (j.attached || w.st.loadsBy[j.task][rng] > j.loadsBefore) {
+			n++
+		}
+	}
+	return n
+}
+
+// feat: history features of one subscriber (or of the resolver's), see subRec.
+type feat struct{ lateRace, orphan, staleEv bool }
+
 // classify names the scenario class of a view mismatch (history features only).
-func (w *world) classify(prefix string, excl, lateRace bool, got, required, allowed map[string]bool) string {
+func (w *world) classify(prefix string, excl bool, f feat, got, required, allowed map[string]bool) string {
+	lateRace, orphan := f.lateRace, f.orphan
 	var extra, missing []string
 	for v := range got {
 		if !allowed[v] {
@@ -330,6 +393,8 @@ func (w *world) classify(prefix string, excl, lateRace bool, got, required, allo
 			causes["exclusive-snapshot-ignores-registration-order"] = true
 		case vt.dupWatch:
 			causes["concurrent-first-subscribers-race"] = true
+		case f.staleEv || vt.oldWatchAlive:
+			causes["event-of-cancelled-stream-applied-to-new-watcher"] = true
 		case lateRace:
 			causes["late-subscriber-races-with-watch-event"] = true
 		case vt.overwritten[v]:
@@ -358,6 +423,20 @@ func (w *world) classify(prefix string, excl, lateRace bool, got, required, allo
 			// exclusive, after a reload: the value-only diff of a reload cannot see that the
 			// holder of v registered again while the watch was interrupted
 			mcauses["exclusive-snapshot-ignores-registration-order"] = true
+		case orphan:
+			// Close of the only subscriber ran before the watch goroutine had set up its stream
+			// (NewSubscriber returns before that): Unmonitor found no cancel function and dropped
+			// the watcher, setupWatch then re-created it without listeners and with empty values and
+			// opened a stream nobody can cancel; this subscriber attached to that watcher and was
+			// handed its (incomplete) values instead of a loaded snapshot
+			mcauses["close-before-watch-setup-leaves-orphan-watcher"] = true
+		case f.staleEv || vt.oldWatchAlive:
+			// the last subscriber of the range was closed (its stream's context cancelled) and a new
+			// one subscribed; the old watch goroutine had received a response before (or its select
+			// still took one after the cancel) and handleWatchEvents, which finds the watcher by key,
+			// applied those old events to the new watcher after its snapshot (the new stream starts
+			// behind them)
+			mcauses["event-of-cancelled-stream-applied-to-new-watcher"] = true
 		case lateRace:
 			// attached to an existing watcher while events were in flight (Monitor hands over the
 			// registry's current values, handleWatchEvents calls the listeners it captured before
@@ -377,7 +456,7 @@ func (w *world) classify(prefix string, excl, lateRace bool, got, required, allo
 	if !unexplained {
 		// a missing live value names the class (a stale value next to it is usually its
 		// consequence: the event that would have replaced it was the one that got lost)
-		order := []string{"exclusive-snapshot-ignores-registration-order", "concurrent-first-subscribers-race", "late-subscriber-races-with-watch-event",
+		order := []string{"exclusive-snapshot-ignores-registration-order", "concurrent-first-subscribers-race", "close-before-watch-setup-leaves-orphan-watcher", "event-of-cancelled-stream-applied-to-new-watcher", "late-subscriber-races-with-watch-event",
 			"stale-value-after-update-in-place", "exclusive-value-lost-after-update-in-place",
 			"stale-value-after-reload-with-changed-value", "value-lost-after-reload-with-changed-value"}
 		for _, c := range order {
@@ -408,14 +487,17 @@ func (w *world) classify(prefix string, excl, lateRace bool, got, required, allo
 // called at quiescence with nothing in flight.
 func (w *world) checkViews(when string) {
 	w.r.Probe("oracle")
-	// UpdateState calls that are still on their way (slow runs) take effect first
-	for i := 0; w.cc != nil && w.cc.inflight > 0 && i < 200; i++ {
+	// UpdateState calls and listener calls that are still on their way (slow runs) finish first
+	for i := 0; (w.cbInflight > 0 || (w.cc != nil && w.cc.inflight > 0)) && i < 200; i++ {
 		w.r.Sleep(5 * time.Millisecond)
 		w.r.Quiesce()
 	}
 	for _, s := range w.subs {
-		if !s.joined || s.tainted {
+		if !s.joined || s.tainted || s.closing {
 			continue
+		}
+		if s.exact {
+			w.r.Probe("oracle-exact-match-subscriber")
 		}
 		got := setOf(s.sub.Values())
 		req, allow := w.expected(s.prefix, s.excl, w.exactExclusive(s))
@@ -425,11 +507,11 @@ func (w *world) checkViews(when string) {
 			if s.excl {
 				want = fmt.Sprintf("at least %v and at most %v", sorted(req), sorted(allow))
 			}
-			w.fail(w.classify(s.prefix, s.excl, s.lateRace, got, req, allow), "%s: %s (exclusive=%v) Values()=%v, live registrations under %s give %s (live keys %v); history: %s",
+			w.fail(w.classify(s.prefix, s.excl, feat{s.lateRace, s.orphan, s.staleEv}, got, req, allow), "%s: %s (exclusive=%v) Values()=%v, live registrations under %s give %s (live keys %v); history: %s",
 				when, s.name, s.excl, sorted(got), s.prefix, want, fmtLive(w.st.live(s.prefix)), w.history())
 		}
 	}
-	if c := w.cc; c != nil && c.res != nil && !c.tainted {
+	if c := w.cc; c != nil && c.res != nil && !c.tainted && !c.closing {
 		got := setOf(c.last)
 		exp, _ := w.expected(c.prefix, false, false)
 		switch {
@@ -445,7 +527,7 @@ func (w *world) checkViews(when string) {
 					// was truncated: what is missing says nothing, name the class by the extras
 					req = map[string]bool{}
 				}
-				cls := w.classify(c.prefix, false, c.lateRace, got, req, exp)
+				cls := w.classify(c.prefix, false, feat{c.lateRace, c.orphan, c.staleEv}, got, req, exp)
 				if cls == "view-mismatch" || cls == "stale-value" || cls == "missing-value" {
 					cls = "resolver-" + cls
 					if c.overtaken {
@@ -473,14 +555,14 @@ func (w *world) checkViews(when string) {
 						rest[v] = true
 					}
 				}
-				cls := w.classify(c.prefix, false, c.lateRace, got, rest, rest)
+				cls := w.classify(c.prefix, false, feat{c.lateRace, c.orphan, c.staleEv}, got, rest, rest)
 				if cls == "stale-value" {
 					cls = "resolver-subset"
 				}
 				w.fail(cls, "%s: %d live addresses; resolver's last UpdateState contains %v which are not live", when, len(exp), sorted(extra))
 			case len(got) != subsetMax:
 				c.tainted = true
-				cls := w.classify(c.prefix, false, c.lateRace, got, exp, exp)
+				cls := w.classify(c.prefix, false, feat{c.lateRace, c.orphan, c.staleEv}, got, exp, exp)
 				if cls == "missing-value" {
 					cls = "resolver-subset"
 				}
@@ -497,17 +579,22 @@ func (w *world) checkViews(when string) {
 // view read inside the last notification is the final view.
 func (w *world) checkNotified() {
 	for _, s := range w.subs {
-		if !s.joined {
+		if !s.joined || s.closing {
 			continue
 		}
 		final := sortedCopy(s.sub.Values())
-		ref, what := s.base, "the view right after AddListener (no notification since)"
-		if s.notifies > 0 {
-			ref, what = s.lastNotify, fmt.Sprintf("the view inside the last of %d notifications", s.notifies)
-		}
-		if fmt.Sprint(final) != fmt.Sprint(ref) {
-			w.fail("change-without-notification", "%s: final Values()=%v but %s was %v: a change was not followed by a listener call; history: %s",
-				s.name, final, what, ref, w.history())
+		for i, l := range s.lis {
+			ref, what := l.base, "the view right after AddListener (no notification since)"
+			if l.notifies > 0 {
+				ref, what = l.lastNotify, fmt.Sprintf("the view inside the last of %d notifications", l.notifies)
+			}
+			if i > 0 {
+				w.r.Probe("oracle-second-listener")
+			}
+			if fmt.Sprint(final) != fmt.Sprint(ref) {
+				w.fail("change-without-notification", "%s listener %d of %d: final Values()=%v but %s was %v: a change was not followed by a call of this listener; history: %s",
+					s.name, i+1, len(s.lis), final, what, ref, w.history())
+			}
 		}
 	}
 }
@@ -544,12 +631,20 @@ func (w *world) op(format string, a ...any) {
 // subscriber attached to an already watched range while events of that range were in
 // flight (delivered to go-zero within the last few virtual seconds, during the call, or
 // not delivered yet).  Used only to name the scenario class of a mismatch.
-func (w *world) joinWindow(prefix string) func() bool {
+//
+// "Attached to an already watched range" is known exactly: the first subscriber of a range
+// (also the first one after every earlier one was closed) loads the range itself, i.e. its
+// task issues a Get of the range during the call; a subscriber joining an existing watcher
+// never does.
+func (w *world) joinWindow(prefix string) (*joinState, func() (race, orphan bool)) {
 	if w.joinsBegun == nil {
 		w.joinsBegun = map[string]int{}
 	}
-	late := w.joinsBegun[prefix] > 0
 	w.joinsBegun[prefix]++
+	me := w.r.CurrentID()
+	getsBefore := w.st.getsBy[me][prefix]
+	js := &joinState{rng: prefix, task: me, loadsBefore: w.st.loadsBy[me][prefix]}
+	w.holders = append(w.holders, js)
 	vt := w.st.view(prefix)
 	upToDate := func() bool {
 		live := w.st.live(prefix)
@@ -574,14 +669,17 @@ func (w *world) joinWindow(prefix string) func() bool {
 	// flight too, even if they cancel out (put + delete) so that the contents agree
 	behind := func() bool { return vt.toldRev < w.st.modRev[prefix] }
 	lag := !upToDate() || behind()
-	return func() bool {
-		// which of two overlapping joins reaches the registry first is the scheduler's choice
-		late := late || w.joinsBegun[prefix] >= 2
+	return js, func() (bool, bool) {
+		js.attached = true
+		late := w.st.getsBy[me][prefix] == getsBefore
+		if !late && w.closedOn[prefix] > 0 {
+			w.r.Probe("first-subscriber-again-after-close")
+		}
 		race := late && (recent || lag || sending || begun != vt.sendsBegun || vt.sendsBegun != vt.deliveries || rev != w.st.rev || del != vt.deliveries || snaps != vt.snapshots || !upToDate() || behind())
 		if race {
 			w.r.Probe("late-join-with-events-in-flight")
 		}
-		return race
+		return race, late && vt.orphanWatch
 	}
 }
 
@@ -592,16 +690,26 @@ func (w *world) join(s *subRec) *simrt.Task {
 		if s.excl {
 			opts = append(opts, discov.Exclusive())
 		}
+		if s.exact {
+			opts = append(opts, discov.WithExactMatch())
+			w.r.Probe("exact-match-subscriber")
+		}
+		if s.excl && s.exact && w.t.Bool() {
+			opts[0], opts[1] = opts[1], opts[0] // the order of options must not matter
+		}
 		// a snapshot handed to an exclusive subscriber in which two keys share a value
 		// does not say which one registered last
 		if s.excl {
 			w.markAmbiguous(s.prefix)
 		}
-		done := w.joinWindow(s.prefix)
-		sub, err := discov.NewSubscriber(w.endpoints, s.key, opts...)
-		s.lateRace = done()
+		js, done := w.joinWindow(s.prefix)
+		s.js = js
+		// every caller has its own endpoints slice (the registry sorts it in place)
+		sub, err := discov.NewSubscriber(append([]string(nil), w.endpoints...), s.key, opts...)
+		s.lateRace, s.orphan = done()
 		s.sawAll = len(w.st.ever[s.prefix]) == 0 // still nothing registered now that it is attached
 		if err != nil {
+			js.closed = true
 			w.r.Fail("subscribe-error", "NewSubscriber(%s): %v", s.key, err)
 			return
 		}
@@ -609,21 +717,127 @@ func (w *world) join(s *subRec) *simrt.Task {
 			w.markAmbiguous(s.prefix)
 		}
 		s.sub = sub
-		sub.AddListener(func() {
-			s.notifies++
-			w.clk++
-			start := w.clk
-			vals := sortedCopy(sub.Values())
-			// notifications may overlap (two watch goroutines): the one that STARTED last read
-			// the view after the last change
-			if start > s.lastStart {
-				s.lastStart, s.lastNotify = start, vals
-			}
-			w.safety(s.name, s.prefix, vals)
-		})
-		s.base = sortedCopy(sub.Values())
+		for i := 0; i < s.nLis; i++ {
+			w.addListener(s)
+		}
+		if s.nLis != 1 {
+			w.r.Probe(fmt.Sprintf("subscriber-with-%d-listeners", s.nLis))
+		}
 		s.joined = true
 	})
+}
+
+// addListener adds one more recording listener to the subscriber.
+func (w *world) addListener(s *subRec) {
+	l := &lisRec{}
+	s.lis = append(s.lis, l)
+	sub := s.sub
+	sub.AddListener(func() {
+		l.notifies++
+		w.clk++
+		start := w.clk
+		if !w.cleaning && w.st.cancelledStreamOwner(w.r.CurrentID()) {
+			s.staleEv = true
+			w.r.Probe("listener-called-by-cancelled-watch-goroutine")
+		}
+		vals := sortedCopy(sub.Values())
+		// notifications may overlap (two watch goroutines): the one that STARTED last read
+		// the view after the last change
+		if start > l.lastStart {
+			l.lastStart, l.lastNotify = start, vals
+		}
+		w.safety(s.name, s.prefix, vals)
+		w.slowCallback()
+	})
+	l.base = sortedCopy(sub.Values())
+}
+
+// slowCallback: in "slow listener" runs a listener call yields and may take virtual time
+// before it returns (it runs on go-zero's watch goroutine, the joiner's or a reload's).
+func (w *world) slowCallback() {
+	if w.slowLis == 0 {
+		return
+	}
+	t := w.t
+	w.cbInflight++
+	defer func() { w.cbInflight-- }()
+	for i := t.Intn(w.slowLis + 1); i > 0; i-- {
+		w.r.Yield()
+	}
+	if t.Chance(1, 4) {
+		w.r.Probe("listener-took-virtual-time")
+		w.r.Sleep(time.Duration(1+t.Intn(20)) * time.Millisecond)
+	}
+}
+
+// closeSub closes a subscriber in the middle of the run (own task: Close needs the cluster lock).
+func (w *world) closeSub(s *subRec) {
+	s.closing = true
+	w.op("%s closes", s.name)
+	w.r.Probe("subscriber-closed-mid-run")
+	w.closes = append(w.closes, w.r.Go("close-"+s.name, func() {
+		s.sub.Close()
+		s.js.closed = true
+		w.closedOn[s.prefix]++
+	}))
+}
+
+// drawSub draws the shape of one more subscriber of the key name with index pi.
+func (w *world) drawSub(pi int) *subRec {
+	t := w.t
+	s := &subRec{name: fmt.Sprintf("sub%d", len(w.subs)), key: w.keyNames[pi], prefix: w.prefixes[pi], excl: t.Bool(), nLis: 1}
+	if w.optExact && t.Chance(1, 3) {
+		c := w.exactKeys[pi]
+		s.key = c[t.Intn(len(c))]
+		s.prefix, s.exact = s.key, true
+	}
+	if w.optListeners {
+		s.nLis = []int{1, 2, 0, 3}[t.Intn(4)]
+	}
+	return s
+}
+
+// buildResolver builds the gRPC resolver of the first key name (own task, like join).
+func (w *world) buildResolver() *simrt.Task {
+	r := w.r
+	return r.Go("build-resolver", func() {
+		b := resolver.Get(w.scheme)
+		if b == nil {
+			r.Fail("resolver-not-registered", "scheme %s is not registered", w.scheme)
+			return
+		}
+		u, _ := url.Parse(fmt.Sprintf("%s://%s/%s", w.scheme, etcdHost, w.keyNames[0]))
+		js, done := w.joinWindow(w.prefixes[0])
+		w.cc.js = js
+		res, err := b.Build(resolver.Target{URL: *u}, w.cc, resolver.BuildOptions{})
+		w.cc.lateRace, w.cc.orphan = done()
+		if err != nil {
+			js.closed = true
+			r.Fail("resolver-build-error", "Build: %v", err)
+			return
+		}
+		w.cc.res = res
+	})
+}
+
+// drawKey / drawVal: the key of a direct store write and the value written to it.  Keys next to
+// the watched prefixes (extras) mostly carry addresses of their own, so that a view that takes
+// one of them in shows a value that was never registered under the watched range.
+func (w *world) drawKey() string {
+	if len(w.extras) > 0 && w.t.Chance(1, 4) {
+		w.r.Probe("op-on-key-next-to-the-prefix")
+		return w.extras[w.t.Intn(len(w.extras))]
+	}
+	return w.keysOf[w.t.Intn(len(w.keysOf))]
+}
+
+func (w *world) drawVal(key string) string {
+	for _, x := range w.extras {
+		if x == key && w.t.Chance(2, 3) {
+			return fmt.Sprintf("10.9.0.%d:80", 1+w.t.Intn(2))
+		}
+	}
+	return w.vals[w.t.Intn(len(w.vals))]
 }
 
 func (w *world) markAmbiguous(prefix string) {
@@ -699,8 +913,9 @@ func (w *world) leasesOf(p *pubRec) []*lease {
 
 func discovScenario(r *simrt.Run, tier string) {
 	t := r.Tape
-	w := &world{r: r, t: t, endpoints: []string{etcdHost}}
+	w := &world{r: r, t: t, endpoints: []string{etcdHost}, closedOn: map[string]int{}}
 	defer w.flush()
+	defer func() { w.opsDone = true }()
 	thorough := tier == "thorough"
 
 	// ---- shape of the run
@@ -715,13 +930,44 @@ func discovScenario(r *simrt.Run, tier string) {
 	for _, k := range keyNames {
 		prefixes = append(prefixes, k+"/")
 	}
+	w.keyNames, w.prefixes = keyNames, prefixes
 	for i := 0; i < nVals; i++ {
 		w.vals = append(w.vals, fmt.Sprintf("10.0.0.%d:80", i+1))
 	}
 	for i := 0; i < nKeys; i++ {
 		w.keysOf = append(w.keysOf, fmt.Sprintf("%s%d", prefixes[i%nPrefix], i+1))
 	}
-	w.st = newStore(r, prefixes)
+	// option switches of the run (each off when its draw is 0)
+	w.optExact = t.Chance(1, 4)
+	optNeighbours := t.Chance(1, 3)
+	w.optLifecycle = t.Chance(1, 3)
+	w.optListeners = t.Chance(1, 3)
+	if t.Chance(1, 4) {
+		w.slowLis = 1 + t.Intn(3)
+	}
+	optPoller := t.Chance(1, 5)
+	// the ranges a subscriber may watch: every key name as a prefix, and (exact match) the bare
+	// name and the first key under the prefix
+	ranges := append([]string(nil), prefixes...)
+	for pi, k := range keyNames {
+		c := []string{k}
+		if pi < nKeys {
+			c = append(c, w.keysOf[pi])
+		}
+		w.exactKeys = append(w.exactKeys, c)
+		if w.optExact {
+			ranges = append(ranges, c...)
+		}
+		switch {
+		case optNeighbours:
+			// the bare name, the end of the prefix range ('0' = '/'+1), a longer name
+			w.extras = append(w.extras, k, k+"0", k+"b/1")
+		case w.optExact:
+			w.extras = append(w.extras, k)
+		}
+	}
+	w.st = newStore(r, ranges)
+	w.st.openSubs = w.holdersOf
 	w.cli = newSimClient(w.st)
 	w.faulty = t.Chance(1, 2)
 	if w.faulty {
@@ -743,22 +989,25 @@ func discovScenario(r *simrt.Run, tier string) {
 	w.nOps = nOps
 
 	// subscribers
-	w.subs = append(w.subs, &subRec{name: "sub0", key: keyNames[0], prefix: prefixes[0], excl: t.Bool()})
+	w.subs = append(w.subs, w.drawSub(0))
 	lateAt := -1
 	if t.Chance(1, 2) {
-		pi := t.Intn(nPrefix)
-		w.subs = append(w.subs, &subRec{name: "sub1", key: keyNames[pi], prefix: prefixes[pi], excl: t.Bool()})
+		w.subs = append(w.subs, w.drawSub(t.Intn(nPrefix)))
 		lateAt = t.Intn(nOps + 1) // 0: together with sub0
 	}
 	useResolver := t.Chance(1, 2)
-	scheme := "etcd"
+	w.scheme = "etcd"
 	bulk := 0
+	resolverAt := 0 // 0: built at the start, i > 0: before operation i
 	if useResolver {
 		if t.Bool() {
-			scheme = "discov"
+			w.scheme = "discov"
 		}
 		if t.Chance(1, 6) {
 			bulk = t.Range(15, 40)
+		}
+		if t.Chance(1, 4) {
+			resolverAt = t.Intn(nOps + 1)
 		}
 	}
 	// publishers
@@ -782,7 +1031,8 @@ func discovScenario(r *simrt.Run, tier string) {
 
 	// ---- registrations that exist before anybody subscribes
 	for i := t.Intn(4); i > 0; i-- {
-		k, v := w.keysOf[t.Intn(nKeys)], w.vals[t.Intn(nVals)]
+		k := w.drawKey()
+		v := w.drawVal(k)
 		w.op("put %s=%s", k, v)
 		w.st.put(k, v, 0)
 	}
@@ -794,17 +1044,22 @@ func discovScenario(r *simrt.Run, tier string) {
 		r.Probe("bulk")
 	}
 
+	var shapes []string
+	for _, s := range w.subs {
+		shapes = append(shapes, fmt.Sprintf("%s key=%s exact=%v exclusive=%v listeners=%d", s.name, s.key, s.exact, s.excl, s.nLis))
+	}
 	r.Sample(map[string]any{"scenario": "discov", "keys": nKeys, "values": nVals, "prefixes": nPrefix, "ops": nOps, "publishers": nPubs,
-		"subscribers": len(w.subs), "sub0_exclusive": w.subs[0].excl, "late_join_at": lateAt, "resolver": useResolver, "bulk_keys": bulk,
+		"subscribers": shapes, "late_join_at": lateAt, "resolver": useResolver, "resolver_built_before_op": resolverAt, "bulk_keys": bulk,
+		"keys_next_to_the_prefix": w.extras, "exact_match_allowed": w.optExact, "close_and_resubscribe_ops": w.optLifecycle,
+		"listener_count_varies": w.optListeners, "slow_listeners": w.slowLis, "concurrent_values_reader": optPoller,
 		"faults": fmt.Sprintf("%+v", w.st.fc), "calm_exact_checks_after_each_op": w.calm})
 
 	// ---- subscribers
 	// (one after the other unless drawn otherwise: two first subscribers racing through
 	// Registry.Monitor is a scenario class of its own)
 	concurrentJoins := t.Chance(1, 5)
-	var joins []*simrt.Task
 	started := func(tk *simrt.Task) bool {
-		joins = append(joins, tk)
+		w.joins = append(w.joins, tk)
 		if concurrentJoins {
 			return true
 		}
@@ -828,41 +1083,34 @@ func discovScenario(r *simrt.Run, tier string) {
 		if t.Chance(1, 2) {
 			w.cc.slow = 1 + t.Intn(3)
 		}
-		if !started(r.Go("build-resolver", func() {
-			b := resolver.Get(scheme)
-			if b == nil {
-				r.Fail("resolver-not-registered", "scheme %s is not registered", scheme)
-				return
-			}
-			u, _ := url.Parse(fmt.Sprintf("%s://%s/%s", scheme, etcdHost, keyNames[0]))
-			done := w.joinWindow(prefixes[0])
-			res, err := b.Build(resolver.Target{URL: *u}, w.cc, resolver.BuildOptions{})
-			w.cc.lateRace = done()
-			if err != nil {
-				r.Fail("resolver-build-error", "Build: %v", err)
-				return
-			}
-			w.cc.res = res
-		})) {
+		if resolverAt == 0 && !started(w.buildResolver()) {
 			return
 		}
 	}
 	if !w.faulty {
-		if !r.JoinTimeout(10*time.Minute, joins...) {
+		if !r.JoinTimeout(10*time.Minute, w.joins...) {
 			r.Fail("subscribe-stuck", "NewSubscriber / resolver Build did not return within 10 virtual minutes without any fault: %v", r.AliveTasks())
 			return
 		}
-		joins = nil
+		w.joins = nil
 	}
 	r.MarkBackground(bg)
+	if optPoller {
+		w.poller()
+	}
 
 	// ---- operations
 	for i := 0; i < nOps && !r.Failed(); i++ {
 		w.think()
 		if lateAt == i+1 {
-			joins = append(joins, w.join(w.subs[1]))
+			w.joins = append(w.joins, w.join(w.subs[1]))
 			w.op("sub1 joins")
 			r.Probe("late-join")
+		}
+		if useResolver && resolverAt == i+1 {
+			w.joins = append(w.joins, w.buildResolver())
+			w.op("resolver is built")
+			r.Probe("resolver-built-late")
 		}
 		w.step()
 		for _, s := range w.subs {
@@ -876,6 +1124,7 @@ func discovScenario(r *simrt.Run, tier string) {
 			w.checkViews(fmt.Sprintf("after op %d", i+1))
 		}
 	}
+	w.opsDone = true
 	if r.Failed() {
 		w.cleanup()
 		return
@@ -884,8 +1133,9 @@ func discovScenario(r *simrt.Run, tier string) {
 	// ---- faults stop; bounded virtual time to converge
 	w.st.faultsOn = false
 	w.st.getFail = 0
-	joinsDone := r.JoinTimeout(10*time.Minute, joins...)
+	joinsDone := r.JoinTimeout(10*time.Minute, w.joins...)
 	reloadsDone := r.JoinTimeout(10*time.Minute, w.reloads...)
+	closesDone := r.JoinTimeout(10*time.Minute, w.closes...)
 	if !reloadsDone {
 		class := "reload-stuck"
 		if w.reloadHoldsLock() {
@@ -899,6 +1149,11 @@ func discovScenario(r *simrt.Run, tier string) {
 	}
 	if !joinsDone {
 		w.fail("subscribe-stuck", "NewSubscriber / resolver Build did not return within 10 virtual minutes after the last fault: %v; history: %s", r.AliveTasks(), w.history())
+		w.cleanup()
+		return
+	}
+	if !closesDone {
+		w.fail("close-stuck", "Subscriber.Close / resolver Close did not return within 10 virtual minutes after the last fault: %v; history: %s", r.AliveTasks(), w.history())
 		w.cleanup()
 		return
 	}
@@ -933,6 +1188,9 @@ func discovScenario(r *simrt.Run, tier string) {
 		if w.cc != nil {
 			now += fmt.Sprint(sortedCopy(w.cc.last))
 		}
+		if w.cbInflight > 0 {
+			caught = false
+		}
 		if caught && now == prev {
 			stable++
 		} else {
@@ -948,7 +1206,11 @@ func discovScenario(r *simrt.Run, tier string) {
 	w.checkViews("at quiescence after the last fault")
 	w.checkNotified()
 	for _, s := range w.subs {
-		r.Ev("final-"+s.name, int64(len(s.sub.Values())), int64(s.notifies))
+		n := 0
+		for _, l := range s.lis {
+			n += l.notifies
+		}
+		r.Ev("final-"+s.name, int64(len(s.sub.Values())), int64(n))
 	}
 	w.cleanup()
 }
@@ -956,7 +1218,7 @@ func discovScenario(r *simrt.Run, tier string) {
 // step performs one drawn operation.
 func (w *world) step() {
 	t, r := w.t, w.r
-	nKeys, nVals := len(w.keysOf), len(w.vals)
+	nVals := len(w.vals)
 	kinds := []int{0, 0, 0, 1, 1}
 	if len(w.pubs) > 0 {
 		kinds = append(kinds, 2, 2, 3, 4, 5)
@@ -964,9 +1226,16 @@ func (w *world) step() {
 	if w.faulty {
 		kinds = append(kinds, 6, 7, 8, 9)
 	}
+	if w.optLifecycle {
+		kinds = append(kinds, 10, 10, 11, 11)
+	}
+	if w.optListeners {
+		kinds = append(kinds, 12)
+	}
 	switch kinds[t.Intn(len(kinds))] {
 	case 0: // put: new key, same value again, update in place to a new value, value shared with another key
-		k, v := w.keysOf[t.Intn(nKeys)], w.vals[t.Intn(nVals)]
+		k := w.drawKey()
+		v := w.drawVal(k)
 		if e := w.st.kvs[k]; e != nil && e.val != v {
 			r.Probe("op-update-in-place")
 		}
@@ -974,7 +1243,7 @@ func (w *world) step() {
 		r.Ev("put", int64(t.Pos()))
 		w.st.put(k, v, 0)
 	case 1:
-		k := w.keysOf[t.Intn(nKeys)]
+		k := w.drawKey()
 		w.op("delete %s", k)
 		r.Ev("delete", int64(t.Pos()))
 		w.st.deleteKeys([]string{k}, "delete")
@@ -1063,7 +1332,101 @@ func (w *world) step() {
 		n := t.Range(1, 3)
 		w.op("next %d Gets fail", n)
 		w.st.getFail += n
+	case 10: // a subscriber (or the resolver) goes away in the middle of the run
+		var open, gone []*subRec
+		for _, s := range w.subs {
+			if s.joined && !s.closing {
+				open = append(open, s)
+			} else if s.joined && s.js.closed {
+				gone = append(gone, s)
+			}
+		}
+		if len(gone) > 0 && t.Chance(1, 5) {
+			// Close is called once more on a subscriber that has been closed (others, or a new
+			// subscriber of the same key, may be attached meanwhile)
+			s := gone[t.Intn(len(gone))]
+			w.op("%s closes again", s.name)
+			r.Probe("subscriber-closed-twice")
+			w.closes = append(w.closes, r.Go("close-again-"+s.name, func() { s.sub.Close() }))
+			return
+		}
+		n := len(open)
+		if c := w.cc; c != nil && c.res != nil && !c.closing {
+			n++
+		}
+		if n == 0 {
+			return
+		}
+		if i := t.Intn(n); i < len(open) {
+			r.Ev("sub-close", int64(i))
+			w.closeSub(open[i])
+		} else {
+			c := w.cc
+			c.closing = true
+			w.op("resolver closes")
+			r.Ev("resolver-close")
+			r.Probe("resolver-closed-mid-run")
+			w.closes = append(w.closes, r.Go("close-resolver", func() {
+				c.res.Close()
+				c.js.closed = true
+				w.closedOn[c.prefix]++
+			}))
+		}
+	case 11: // one more subscriber (after a Close: possibly the first one of its range again)
+		if len(w.subs) >= 4 {
+			return
+		}
+		s := w.drawSub(t.Intn(len(w.prefixes)))
+		w.subs = append(w.subs, s)
+		w.op("%s subscribes (key %s exact=%v exclusive=%v)", s.name, s.key, s.exact, s.excl)
+		r.Ev("sub-join", int64(len(w.subs)))
+		r.Probe("subscriber-added-mid-run")
+		w.joins = append(w.joins, w.join(s))
+	case 12: // one more listener on a subscriber that is already attached
+		var open []*subRec
+		for _, s := range w.subs {
+			if s.joined && !s.closing && len(s.lis) < 4 {
+				open = append(open, s)
+			}
+		}
+		if len(open) == 0 {
+			return
+		}
+		s := open[t.Intn(len(open))]
+		w.op("%s gets listener %d", s.name, len(s.lis)+1)
+		r.Probe("listener-added-mid-run")
+		w.addListener(s)
 	}
+}
+
+// poller: a client that reads Values() of the subscribers at its own pace, concurrently with
+// everything else (the returned slice is only read).
+func (w *world) poller() {
+	r, t := w.r, w.t
+	r.Go("values-reader", func() {
+		for n := 0; n < 40 && !w.opsDone && !r.Failed(); n++ {
+			switch t.Intn(3) {
+			case 0:
+				r.Yield()
+			case 1:
+				r.Sleep(time.Duration(t.Range(1, 50)) * time.Millisecond)
+			default:
+				r.Sleep(time.Duration(t.Range(1, 3)) * time.Second)
+			}
+			var cand []*subRec
+			for _, s := range w.subs {
+				if s.joined {
+					cand = append(cand, s)
+				}
+			}
+			if len(cand) == 0 {
+				continue
+			}
+			s := cand[t.Intn(len(cand))]
+			w.safety(s.name+" (concurrent reader)", s.prefix, s.sub.Values())
+			r.Probe("concurrent-values-reader")
+		}
+	})
 }
 
 // reloadHoldsLock: a reload task sits in watchGroup.Wait (it holds the cluster lock there)
@@ -1083,17 +1446,19 @@ func (w *world) reloadHoldsLock() bool {
 func (w *world) cleanup() {
 	r := w.r
 	w.st.faultsOn = false
+	w.st.openSubs = nil
+	w.opsDone, w.cleaning = true, true
 	var ts []*simrt.Task
 	ts = append(ts, r.Go("cleanup", func() {
 		for _, p := range w.allPubs {
 			p.Stop()
 		}
 		for _, s := range w.subs {
-			if s.sub != nil {
+			if s.sub != nil && !s.closing {
 				s.sub.Close()
 			}
 		}
-		if w.cc != nil && w.cc.res != nil {
+		if w.cc != nil && w.cc.res != nil && !w.cc.closing {
 			w.cc.res.Close()
 		}
 	}))
@@ -1111,74 +1476,183 @@ func kubeScenario(r *simrt.Run, tier string) {
 	t := r.Tape
 	var last []string
 	published := 0
+	slowUpdate := 0 // > 0 (concurrent histories): the update function yields before it takes effect, like a resolver's UpdateState behind the channel's lock
 	h := zresolver.VerifNewKubeEventHandler(func(eps []string) {
+		eps = append([]string(nil), eps...)
+		if slowUpdate > 0 {
+			for y := t.Intn(slowUpdate + 1); y > 0; y-- {
+				r.Yield()
+			}
+		}
 		published++
-		last = append([]string(nil), eps...)
+		last = eps
 	})
 	nIPs := t.Range(1, 5)
+	maxAddrs := 3
+	if t.Chance(1, 8) {
+		// a big service: more addresses than the resolver's subset size
+		nIPs, maxAddrs = t.Range(33, 60), 25
+		r.Probe("kube-many-addresses")
+	}
 	maxOps := 10
 	if tier == "thorough" {
 		maxOps = 30
 	}
 	nOps := t.Range(1, maxOps)
-	rv := 0
+	// resource versions are opaque strings; the API server's are decimal etcd revisions.  The
+	// counter starts anywhere (digit-count and integer-width boundaries are a few steps away)
+	// and may jump.
+	rv := []uint64{1, 8, 98, 998, 99998, 1<<31 - 3, 1<<32 - 3, 1<<53 - 2, 1<<63 - 2000}[t.Intn(9)]
+	if rv > 1 {
+		r.Probe("kube-resource-version-not-small")
+	}
+	withNotReady := t.Chance(1, 3)
+	ip := func() string { return fmt.Sprintf("10.2.0.%d", 1+t.Intn(nIPs)) }
 	gen := func() *v1.Endpoints {
 		rv++
+		if t.Chance(1, 4) && rv < 1<<62 {
+			rv += uint64(t.Intn(1000))
+		}
 		ep := &v1.Endpoints{ObjectMeta: metav1.ObjectMeta{Name: "svc", Namespace: "ns", ResourceVersion: fmt.Sprint(rv)}}
 		for s := t.Intn(3); s > 0; s-- {
 			var sub v1.EndpointSubset
-			for a := t.Intn(4); a > 0; a-- {
-				sub.Addresses = append(sub.Addresses, v1.EndpointAddress{IP: fmt.Sprintf("10.2.0.%d", 1+t.Intn(nIPs))})
+			for a := t.Intn(maxAddrs + 1); a > 0; a-- {
+				sub.Addresses = append(sub.Addresses, v1.EndpointAddress{IP: ip()})
+			}
+			if withNotReady && t.Chance(1, 2) {
+				for a := t.Range(1, 2); a > 0; a-- {
+					sub.NotReadyAddresses = append(sub.NotReadyAddresses, v1.EndpointAddress{IP: ip()})
+				}
+				r.Probe("kube-not-ready-addresses")
 			}
 			ep.Subsets = append(ep.Subsets, sub)
 		}
 		return ep
 	}
-	addrs := func(ep *v1.Endpoints) map[string]bool {
-		m := map[string]bool{}
+	// addrs: the addresses of the object that are ready (they must be published) and all of its
+	// addresses (nothing else may be published; whether an address that is only listed as not
+	// ready counts as an "endpoint address" is left open)
+	addrs := func(ep *v1.Endpoints) (ready, all map[string]bool) {
+		ready, all = map[string]bool{}, map[string]bool{}
 		if ep != nil {
 			for _, s := range ep.Subsets {
 				for _, a := range s.Addresses {
-					m[a.IP] = true
+					ready[a.IP], all[a.IP] = true, true
+				}
+				for _, a := range s.NotReadyAddresses {
+					all[a.IP] = true
 				}
 			}
 		}
-		return m
+		return
 	}
-	var cur *v1.Endpoints // the one endpoints object of the service (nil: absent)
-	var log []string
-	r.Sample(map[string]any{"scenario": "kube-eventhandler", "ips": nIPs, "ops": nOps})
+	show := func(ep *v1.Endpoints) string {
+		ready, _ := addrs(ep)
+		return fmt.Sprintf("%v rv %s", sorted(ready), ep.ResourceVersion)
+	}
+	// the informer's events, generated up front: the one endpoints object of the service
+	// (nil: absent) is added, updated, re-delivered and deleted
+	type kop struct {
+		desc  string
+		do    func()
+		after *v1.Endpoints
+	}
+	var ops []kop
+	var cur, prev *v1.Endpoints
 	for i := 0; i < nOps; i++ {
+		var o kop
 		switch {
 		case cur == nil:
-			cur = gen()
-			log = append(log, fmt.Sprintf("add %v", sorted(addrs(cur))))
-			h.OnAdd(cur, t.Bool())
+			n, initial := gen(), t.Bool()
+			o = kop{fmt.Sprintf("add %s", show(n)), func() { h.OnAdd(n, initial) }, n}
 		default:
-			switch t.Intn(5) {
+			c, p := cur, prev
+			switch t.Intn(7) {
 			case 0, 1:
 				n := gen()
-				log = append(log, fmt.Sprintf("update -> %v", sorted(addrs(n))))
-				h.OnUpdate(cur, n)
-				cur = n
+				o = kop{fmt.Sprintf("update -> %s", show(n)), func() { h.OnUpdate(c, n) }, n}
 			case 2:
-				log = append(log, "resync (same resource version)")
-				h.OnUpdate(cur, cur.DeepCopy())
+				o = kop{"resync (same resource version)", func() { h.OnUpdate(c, c.DeepCopy()) }, c}
 			case 3:
-				log = append(log, "delete")
-				h.OnDelete(cur)
-				cur = nil
-			default:
+				o = kop{"delete", func() { h.OnDelete(c) }, nil}
+			case 4:
 				n := gen()
-				log = append(log, fmt.Sprintf("Update(%v)", sorted(addrs(n))))
-				h.Update(n)
-				cur = n
+				o = kop{fmt.Sprintf("Update(%s)", show(n)), func() { h.Update(n) }, n}
+			case 5: // the informer lists again and announces the object it has announced before
+				o = kop{"add again (same object)", func() { h.OnAdd(c.DeepCopy(), true) }, c}
+				r.Probe("kube-object-added-again")
+			default: // the old object handed to OnUpdate is not the latest one the handler has seen
+				n := gen()
+				if p == nil {
+					p = c
+				}
+				o = kop{fmt.Sprintf("update (old = an earlier object, rv %s) -> %s", p.ResourceVersion, show(n)), func() { h.OnUpdate(p, n) }, n}
 			}
 		}
-		r.Ev("kube-op", int64(i))
-		exp := addrs(cur)
-		if got := setOf(last); !sameSet(got, exp) || len(got) != len(last) {
-			r.Fail("kube-published-set", "after %s: last published %v (%d publications), current endpoints addresses %v", strings.Join(log, "; "), sortedCopy(last), published, sorted(exp))
+		ops = append(ops, o)
+		if o.after != cur {
+			prev, cur = cur, o.after
+		}
+	}
+	final := cur
+	concurrent := final != nil && t.Chance(1, 3)
+	r.Sample(map[string]any{"scenario": "kube-eventhandler", "ips": nIPs, "ops": nOps, "first_resource_version": fmt.Sprint(rv), "not_ready_addresses": withNotReady,
+		"concurrent_update_call": concurrent})
+	var log []string
+	check := func(ep *v1.Endpoints) bool {
+		ready, all := addrs(ep)
+		if got := setOf(last); !within(got, ready, all) || len(got) != len(last) {
+			r.Fail("kube-published-set", "after %s: last published %v (%d publications), current endpoints addresses %v (listed as not ready: %v)", strings.Join(log, "; "), sortedCopy(last), published, sorted(ready), len(all)-len(ready))
+			return false
+		}
+		return true
+	}
+	if !concurrent {
+		for i, o := range ops {
+			log = append(log, o.desc)
+			o.do()
+			r.Ev("kube-op", int64(i))
+			if !check(o.after) {
+				return
+			}
+		}
+	} else {
+		// the resolver builder calls Update with the object it has fetched while the informer
+		// (its own goroutine) is delivering events: the calls overlap and which of them the
+		// handler applies last is not observable, so nothing is asserted until both are done and
+		// one more, sequential, Update(the final object) has returned: whatever the handler
+		// held, after that call the current addresses are the final object's
+		r.Probe("kube-concurrent-update-call")
+		slowUpdate = t.Intn(3)
+		fetched := final
+		if o := ops[t.Intn(len(ops))]; o.after != nil {
+			fetched = o.after
+		}
+		inf := r.Go("informer", func() {
+			for i, o := range ops {
+				for y := t.Intn(3); y > 0; y-- {
+					r.Yield()
+				}
+				log = append(log, o.desc)
+				o.do()
+				r.Ev("kube-op", int64(i))
+			}
+		})
+		bld := r.Go("builder", func() {
+			for y := t.Intn(2 * len(ops)); y > 0; y-- {
+				r.Yield()
+			}
+			log = append(log, fmt.Sprintf("[builder: Update(%s)]", show(fetched)))
+			h.Update(fetched.DeepCopy())
+		})
+		if !r.JoinTimeout(time.Minute, inf, bld) {
+			r.Fail("kube-stuck", "EventHandler calls did not return: %v", r.AliveTasks())
+			return
+		}
+		log = append(log, fmt.Sprintf("both done; Update(%s)", show(final)))
+		slowUpdate = 0
+		h.Update(final.DeepCopy())
+		if !check(final) {
 			return
 		}
 	}
